@@ -25,6 +25,12 @@ CHECKS = {
         note="Trusted: pyvc, z3. Assumed: ghost-layer model of the parent chain (every layer has a real source 1..5), IntEnum compares as int, lru_cache transparent; callees replaced by contracts in caller proofs (get_solver_command, parse_devdoc, parse_natspec, arg_parser, toml parsing). Per-contract/function scoping of annotations in run_tests is not under contract.",
         technique="loop-invariant and call-site VCs generated from the AST (pyvc), z3; bounded grammar enumeration as labelled stand-in",
     ),
+    "C11": dict(
+        text="Deductive over a finite domain + SMT: for every f_evm_* abstraction symbol halmos.sevm declares (found by introspection on every run), the query text the real Path.to_smt2 produces is passed through the real refine, parsed by z3, and proved for all 256/264/512-bit operands to define the symbol as its exact EVM operation (division/remainder by zero = 0), with exp left uninterpreted and the rest of the query and the assertion ids unchanged; Path.to_smt2 (every condition asserted once, in order, tracked under its id iff caching, self.solver never read) and dump (file structure) by symbolic execution of their AST; named-assertion equisatisfiability lemma.",
+        ref="DESIGN.md 4/C11",
+        note="Trusted: pyvc, z3 (parser + QF_BV), specs/evm_word.py. Assumed: the regexes of refine do not touch other query text (checked on the generated queries only); Path.to_smt2 is proved for n <= 3 opaque conditions (bounded in n); that self.conditions holds every accumulated constraint (Path.append/extend_path) is not under contract.",
+        technique="postconditions of the real functions: ground evaluation over the finite symbol domain + SMT validity for all operands; AST symbolic execution (pyvc)",
+    ),
 }
 
 NOT_APPLICABLE = {}
